@@ -13,6 +13,11 @@ pub mod serde_json {
     pub struct Value;
 }
 
+// opaque stand-ins for the error type, the crate's Result alias and schemars' Metadata
+pub struct Error;
+pub type Result<T> = std::result::Result<T, Error>;
+pub struct Metadata;
+
 // D3: TypeSpace with the five allocator fields only.
 pub struct TypeSpace {
     pub next_id: u64,
@@ -36,6 +41,14 @@ pub struct ExSchema(Schema);
 #[verifier::external_type_specification]
 #[verifier::external_body]
 pub struct ExValue(serde_json::Value);
+
+#[verifier::external_type_specification]
+#[verifier::external_body]
+pub struct ExError(Error);
+
+#[verifier::external_type_specification]
+#[verifier::external_body]
+pub struct ExMetadata(Metadata);
 
 #[verifier::external_type_specification]
 pub struct ExTypeSpace(TypeSpace);
